@@ -23,7 +23,20 @@ def specs():
     return {"plain": (S1, ["traps", "aux"]), "views": (S2, ["traps", "left", "right", "aux"])}
 
 
-def gen_kernel(rng, zones, invalid=False, nonmonotone=False):
+ZSHAPE = {"traps": (4, 3), "aux": (3, 4), "left": (2, 3), "right": (2, 3)}
+
+
+def rep_list(rng, n):
+    """an ascending index list as long as the axis that is NOT the identity (one index repeated)"""
+    if n < 2:
+        return "[0]"
+    k = rng.randrange(n - 1)
+    l = list(range(n))
+    l[k + 1] = l[k]
+    return str(l)
+
+
+def gen_kernel(rng, zones, invalid=False, nonmonotone=False, fullrep=False):
     """straight-line kernel; every value is returned so nothing is dead"""
     lines, grids, others = [], [], []
     zn = lambda: rng.choice(zones)
@@ -35,8 +48,16 @@ def gen_kernel(rng, zones, invalid=False, nonmonotone=False):
         return f"{p}{n}"
     for _ in range(rng.randint(1, 3)):
         v = fresh("z")
-        lines.append(f'{v} = spec.get_static_trap(zone_id="{zn()}")')
+        name = zn()
+        lines.append(f'{v} = spec.get_static_trap(zone_id="{name}")')
         grids.append(v)
+        if fullrep:
+            # a view with the SHAPE of the zone that is not the zone (repeated index): must not be attributed as the zone itself
+            nx, ny = ZSHAPE[name]
+            w = fresh("f")
+            xs, ys = rng.choice([(rep_list(rng, nx), str(list(range(ny)))), (str(list(range(nx))), rep_list(rng, ny)), (rep_list(rng, nx), rep_list(rng, ny))])
+            lines.append(f"{w} = grid.sub_grid({v}, {xs}, {ys})")
+            grids.append(w)
     if invalid:
         v = fresh("bad")
         lines.append(f'{v} = spec.get_static_trap(zone_id="{rng.choice(["nowhere", "park"])}")')
@@ -246,8 +267,9 @@ def run(ctx):
         S, zones = SP[label]
         invalid = ctx.rng.random() < 0.2
         nonmono = ctx.rng.random() < 0.12
-        src = gen_kernel(ctx.rng, zones, invalid=invalid, nonmonotone=nonmono)
-        ctx.hist("stream", ("invalid-name " if invalid else "") + ("non-monotone-indices" if nonmono else "regular"))
+        fullrep = not nonmono and ctx.rng.random() < 0.2
+        src = gen_kernel(ctx.rng, zones, invalid=invalid, nonmonotone=nonmono, fullrep=fullrep)
+        ctx.hist("stream", ("invalid-name " if invalid else "") + ("non-monotone-indices" if nonmono else "zone-shaped views with a repeated index" if fullrep else "regular"))
         for dec, tag in (("", "unfolded"), ("(arch_spec=S)", "folded")):
             check_kernel(ctx, src.replace("{DEC}", dec), S, zones, f"{label}/{tag}", cases)
         if i == 0:
